@@ -34,7 +34,7 @@ def implDepInit : P (Option (Except Err DepInfo)) := do
     | _ => pure (some (.error .exception))
   else do set ([] : List String); pure none
 
-def verdict (fails : List String) : String :=
+private def verdict (fails : List String) : String :=
   if fails.isEmpty then "T" else "F " ++ ",".intercalate fails
 
 def holdsC10 : OpTable
